@@ -13,6 +13,25 @@ import (
 
 var simpleDests = []string{"a", "a", "b.html", "x/y", "/r", "\"", "'", ">", "-", "#f", "https://o.com/x", "é", "a?b"}
 
+// sd: a simple destination, from the list or a fresh short path
+func sd(r *proto.Rand) string {
+	if r.Intn(2) == 0 {
+		return pick(r, simpleDests)
+	}
+	const abc = "abcdefghijklmnopqrstuvwxyz"
+	n := 1 + r.Intn(3)
+	b := make([]byte, n)
+	for i := range b {
+		b[i] = abc[r.Intn(len(abc))]
+	}
+	return string(b) + pick(r, []string{"", "", ".html", "/", "/x"})
+}
+
+// filler: link text or text between constructs, with the things a bracket scanner cares about
+func filler(r *proto.Rand) string {
+	return pick(r, []string{"", "", "", "a", "t t", " ", "*e*", "`c`", "\\[", "\\]", "[b]", "<b>x</b>", "<br>", "`", "x](", "![i]", "&amp;", "a\\"})
+}
+
 func soup(r *proto.Rand, tokens []string, min, max int) string {
 	var b strings.Builder
 	for i, n := 0, min+r.Intn(max-min+1); i < n; i++ {
@@ -22,7 +41,7 @@ func soup(r *proto.Rand, tokens []string, min, max int) string {
 }
 
 func simpleLink(r *proto.Rand) string {
-	return "[" + pick(r, []string{"", "a", "t t", "*e*"}) + "](" + pick(r, simpleDests) + pick(r, []string{"", "", "", ` "t"`, ` 't'`, ` (t)`}) + ")"
+	return "[" + pick(r, []string{"", "a", "t t", "*e*"}) + "](" + sd(r) + pick(r, []string{"", "", "", ` "t"`, ` 't'`, ` (t)`}) + ")"
 }
 
 // one link or definition with the given destination, alone or in a sentence
@@ -69,7 +88,7 @@ func genLines(r *proto.Rand) string {
 		ls[len(ls)-1] = simpleLink(r)
 	}
 	if r.Intn(3) == 0 {
-		ls[len(ls)-1] = "[" + pick(r, []string{"a", "foo", "a b"}) + "]:" + pick(r, simpleDests)
+		ls[len(ls)-1] = "[" + pick(r, []string{"a", "foo", "a b"}) + "]:" + sd(r)
 	}
 	return strings.Join(ls, "\n")
 }
@@ -89,7 +108,7 @@ func genHTMLBlock(r *proto.Rand) string {
 	}
 	link := simpleLink(r)
 	if r.Intn(4) == 0 {
-		link = "[foo]: " + pick(r, simpleDests)
+		link = "[foo]: " + sd(r)
 	}
 	b.WriteString(link)
 	b.WriteString(pick(r, []string{"", "", "\n", "</div>", "\n</div>", " -->", "\n-->", "</script>", "\n\n" + simpleLink(r), "\n" + simpleLink(r), "\">"}))
@@ -101,7 +120,7 @@ func genBracketHTML(r *proto.Rand) string {
 	toks := []string{"[", "[", "]", "a", " ", "<!--", "-->", "<b>", "</b>", "<a href=\"", "\">", "<span ", ">", "<?", "?>", "<!X", "](a)", "](b.html)", "](\")", "[](a)", "x"}
 	if r.Intn(4) != 0 {
 		return pick(r, []string{"[", "[", "[a ", "x [", "", "[[", "[] ", "\\[", "[x](y) [", "`[` ["}) + pick(r, []string{"<!--", "<!-- ", "<a href=\"", "<span title='", "<?", "<!D ", "<b ", "<b>", "<i x=\"", "</b "}) +
-			pick(r, []string{"", "x", " "}) + "](" + pick(r, simpleDests) + pick(r, []string{")", ")", " \"t\")"}) + pick(r, []string{"-->", "-->", "\">", "'>", "?>", ">", "", "</b>", " -->x"})
+			pick(r, []string{"", "x", " "}) + "](" + sd(r) + pick(r, []string{")", ")", " \"t\")"}) + pick(r, []string{"-->", "-->", "\">", "'>", "?>", ">", "", "</b>", " -->x"})
 	}
 	return soup(r, toks, 3, 7)
 }
@@ -112,7 +131,7 @@ func genContainer(r *proto.Rand) string {
 	inner := pick(r, []string{"", " ", "    ", "     ", "\t", "      ", "   "})
 	body := simpleLink(r)
 	if r.Intn(4) == 0 {
-		body = "[foo]:" + pick(r, simpleDests)
+		body = "[foo]:" + sd(r)
 	}
 	switch r.Intn(5) {
 	case 0:
@@ -153,14 +172,14 @@ func genCodeSpanHTML(r *proto.Rand) string {
 	default:
 		html = "<" + name + ">" + pick(r, []string{"", "x"}) + tick + pick(r, []string{"", "y"}) + "</" + name + ">"
 	}
-	d := pick(r, simpleDests)
+	d := sd(r)
 	link := pick(r, []string{"[](" + tick + ")", "[" + tick + "a" + tick + "](" + d + ")", "[" + tick + "a" + tick + "](" + d + ")", "[](" + d + ")", "[x](" + d + ")" + tick, " " + tick + " [](" + d + ")", "[](" + d + tick + ")", "[" + tick + "](" + d + ")"})
 	return pick(r, []string{"", "", "x "}) + html + link + pick(r, []string{"", "", tick, "</" + name + ">", " x"})
 }
 
 // parenthesised titles
 func genParenTitle(r *proto.Rand) string {
-	d := pick(r, simpleDests)
+	d := sd(r)
 	title := "(" + soup(r, []string{"(", "(", ")", "\\(", "\\)", "t", " ", "a"}, 0, 4) + pick(r, []string{")", ")", ""})
 	switch r.Intn(4) {
 	case 0:
@@ -174,12 +193,16 @@ func genParenTitle(r *proto.Rand) string {
 
 // one line of brackets, parentheses, empty angle destinations and quotes
 func genEmptyAngle(r *proto.Rand) string {
+	if r.Intn(2) == 0 { // around the cause: an enclosing bracket, a link with `<>`, the closing `](dest)`
+		return filler(r) + pick(r, []string{"[", "[", "[", "![", "\\["}) + filler(r) + "[" + filler(r) + "](" + pick(r, []string{"<>", "<>", "<> ", " <>", "<>\"", "<> \"t\"", "< >", "<a>"}) + pick(r, []string{")", ")", ""}) +
+			filler(r) + "](" + sd(r) + pick(r, []string{")", ")", " \"t\")", "\")"}) + filler(r)
+	}
 	switch r.Intn(4) {
 	case 0, 1: // link syntax around a link
 		in := pick(r, []string{"[](<>)", "[b](<>)", "[](< >)", "[](<>\"", "[](<> \"t\")", "[](<>)", "[b]( <>)", "[b](c)", "[](c)", "![](c)", "![b](<>)", "[]()", "[b]( )", "[b]", "[b][]", "\\[b](c)", "[](<a>)"})
-		return pick(r, []string{"[", "[a ", "![", "x [", "[[", "", "[", "\\["}) + in + pick(r, []string{"", "", " d", "[](e)", " [f](g) ", "]"}) + "](" + pick(r, simpleDests) + pick(r, []string{"", "", " \"t\""}) + ")"
+		return pick(r, []string{"[", "[a ", "![", "x [", "[[", "", "[", "\\["}) + in + pick(r, []string{"", "", " d", "[](e)", " [f](g) ", "]"}) + "](" + sd(r) + pick(r, []string{"", "", " \"t\""}) + ")"
 	case 2: // link syntax in the title of a link with an empty angle destination
-		return "[" + pick(r, texts) + "](" + pick(r, []string{"<>", "<>", "<> ", "< >", "<a>", "a"}) + pick(r, []string{"\"", " \"", "'", ""}) + pick(r, []string{"[](", "](", "[t](", "x"}) + pick(r, simpleDests) + pick(r, []string{")", "\")", "')"})
+		return "[" + pick(r, texts) + "](" + pick(r, []string{"<>", "<>", "<> ", "< >", "<a>", "a"}) + pick(r, []string{"\"", " \"", "'", ""}) + pick(r, []string{"[](", "](", "[t](", "x"}) + sd(r) + pick(r, []string{")", "\")", "')"})
 	}
 	toks := []string{"[", "[", "]", "](", "(", ")", "<>", "<>", "![", "\"", "'", " ", "a", "a", "](a)", "[](<>)", "[]()", "![]()", "\\[", "\\]", ">", "`"}
 	return soup(r, toks, 3, 9)
@@ -187,8 +210,12 @@ func genEmptyAngle(r *proto.Rand) string {
 
 // one line: an image (or a link) inside link text, link syntax in the outer destination or title
 func genImageInLink(r *proto.Rand) string {
+	if r.Intn(2) == 0 { // around the cause: link text (or image description) with an image (or link), then link syntax in the rest
+		return filler(r) + pick(r, []string{"[", "[", "![", "[["}) + filler(r) + pick(r, []string{"![", "![", "["}) + pick(r, []string{"", "i"}) + "](" + pick(r, []string{"", "j", "<j>", "j \"t\""}) + ")" + filler(r) + "](" +
+			pick(r, []string{"a \"", "a '", "a \"x ", "", "/", "<x> \""}) + pick(r, []string{"[](", "[t](", "[`c`]("}) + sd(r) + pick(r, []string{"\")", "')", ")", " )", "\" )"})
+	}
 	inner := pick(r, []string{"![]()", "![i](j)", "![i](j)", "![](j \"t\")", "![i](<j>)", "![i](<>)", "![i]", "[i](j)", "[]()", "![[k]](j)", "![i][]", "\\![i](j)"})
-	rest := pick(r, []string{"a", "/", "a \"", "a '", "a \"x", "a 'x ", "[](>", "<x>", "a (", "x.html \""}) + pick(r, []string{"", "[](", "[](", "[t](", "](", " [](", "[[]("}) + pick(r, simpleDests) + pick(r, []string{")", "\")", "')", " )", " \"\")", "", "\" )"})
+	rest := pick(r, []string{"a", "/", "a \"", "a '", "a \"x", "a 'x ", "[](>", "<x>", "a (", "x.html \""}) + pick(r, []string{"", "[](", "[](", "[t](", "](", " [](", "[[]("}) + sd(r) + pick(r, []string{")", "\")", "')", " )", " \"\")", "", "\" )"})
 	return pick(r, []string{"", "", "x ", "[", "`", "!", "!", "</a>", "<b>x</b> "}) + "[" + pick(r, []string{"", "a "}) + inner + pick(r, []string{"", " b"}) + "](" + rest
 }
 
@@ -210,7 +237,7 @@ func genTagTitle(r *proto.Rand) string {
 		title = pick(r, []string{" (" + cl, cl, " " + cl})
 	}
 	link := "[" + pick(r, []string{"", "t", ">"}) + "](" + pick(r, []string{"a", "-", "x.html", "/r"}) + title
-	tail := pick(r, []string{"[](", "[](", "[t](", "](", " [](", "x", "`[](", "[[]("}) + pick(r, simpleDests) + pick(r, []string{q + ")", q + ")", ")", "))", "", " " + q + ")"})
+	tail := pick(r, []string{"[](", "[](", "[t](", "](", " [](", "x", "`[](", "[[]("}) + sd(r) + pick(r, []string{q + ")", q + ")", ")", "))", "", " " + q + ")"})
 	if r.Intn(6) == 0 {
 		return open + simpleLink(r) + cl + simpleLink(r)
 	}
